@@ -6,14 +6,14 @@
 //! registered is removed from the registry, and the harness verifies that the store is empty again
 //! (no tenant listed, every written key absent) - otherwise it falls back to a fresh manager.
 //! Steps (one per KvTenants.tla action); tenant ids travel as arrays of ASCII codes:
-//!   CreateTenant{t}          tenants().create_tenant(t)                    res: ok | err
+//!   CreateTenant{t}          tenants().create_tenant(t, unlimited quotas)  res: ok | err
 //!   Put{t,cf,id,val}         persist_create_node / persist_create_edge     res: ok | notenant | err
 //!   Delete{t,cf,id}          persist_delete_node / persist_delete_edge     res: ok | notenant | err
 //! Every stored node/relationship carries properties o = owner tenant id, v = value token.
 //! After every step, for every registered tenant: storage().scan_nodes/scan_edges, recover(),
 //! get_node/get_edge for every id, and list_persisted_tenants().
 use samyama::graph::{Edge, EdgeId, EdgeType, Label, Node, NodeId, PropertyValue};
-use samyama::persistence::{PersistenceError, PersistenceManager, TenantError};
+use samyama::persistence::{PersistenceError, PersistenceManager, ResourceQuotas, TenantError};
 use serde_json::{json, Value};
 use verif_harness::*;
 
@@ -132,7 +132,7 @@ fn run(scripts: &str, trace: &str, opts: &Opts) -> Res<()> {
                 let op = gs(step, "op");
                 let t = name_of(&step["t"]);
                 let res = match op {
-                    "CreateTenant" => match pm.tenants().create_tenant(t.clone(), format!("tenant {t}"), None) {
+                    "CreateTenant" => match pm.tenants().create_tenant(t.clone(), format!("tenant {t}"), Some(ResourceQuotas::unlimited())) {
                         Ok(()) => {
                             tenants.push(t.clone());
                             "ok"
